@@ -290,3 +290,27 @@ def as_const_bool(e):
     if z3.is_false(s):
         return False
     return None
+
+
+class Opaque(Model):
+    """A field the function under contract is not supposed to read: every operation on it is
+    outside the contract (verdict 'undecided', never 'holds')."""
+
+    def __init__(self, name):
+        self.clsname = "opaque:" + name
+        self.name = name
+
+    def call_method(self, interp, name, args, kwargs, node):
+        raise Unsupported("the contract declares '%s' as not read, but the code uses it (.%s)" % (self.name, name), node)
+
+    def get_attr(self, interp, name, node):
+        raise Unsupported("the contract declares '%s' as not read, but the code reads .%s" % (self.name, name), node)
+
+    def copy(self, memo=None):
+        return self
+
+    def struct_eq(self, other):
+        return self is other
+
+    def read(self, key):
+        return self
